@@ -287,9 +287,11 @@ class Run(object):
         def FN(*a, **kw):
             return ns_obj
 
+        ns_obj.meth = FN
+
         return dict(
             S=mkS, A=mkA, P=self.P, D=self.D, R=self.R, M=self.M, T=self.T, TL=self.TL, V=self.V, CHK=self.CHK,
             sus=self.sus, pre=self.pre, post=self.post,
             E1=E1, E2=E2, LoopLimit=LoopLimit,
-            NS=ns_obj, ARR=[None] * 8, DCT={}, FN=FN, IDX=2, KEY="key", sys=sys,
+            NS=ns_obj, ARR=[None] * 8, DCT={}, FN=FN, LFN=FN, IDX=2, KEY="key", sys=sys,
         )
